@@ -29,7 +29,15 @@ from ..common import Check, import_repo
 PID = "C04"
 NAMED = {"largest", "smallest", "smallest_subnormal", "eps", "posinf", "neginf"}
 NUMS = {"0": 0, "1": 1, "-1": -1, "2": 2, "3": 3, "4": 4, "1/2": 0.5, "0.1": 0.1, "0.2": 0.2, "-0.0": -0.0,
-        "1e300": 1e300, "1e-300": 1e-300, "int:3": 3, "int:0": 0, "int:1": 1}
+        "1e300": 1e300, "1e-300": 1e-300, "int:3": 3, "int:0": 0, "int:1": 1,
+        # NumPy scalars of a given width, whatever the expression's type
+        "np64:0.1": numpy.float64(0.1), "np64:0.7": numpy.float64(0.7), "np64:sqrt2": numpy.sqrt(numpy.float64(2)),
+        "np64:log2": numpy.log(numpy.float64(2)), "np32:third": numpy.float32(1) / numpy.float32(3),
+        "np32:seventh": numpy.float32(1) / numpy.float32(7)}
+# powers of two at the edges of the expression's own format (resolved per type in build)
+POW2 = {"minsub": lambda fi: float(fi.smallest_subnormal), "minsub2": lambda fi: float(fi.smallest_subnormal) * 4,
+        "minnormal": lambda fi: float(fi.smallest_normal), "max": lambda fi: float(2.0 ** (fi.maxexp - 1)),
+        "-minsub": lambda fi: -float(fi.smallest_subnormal)}
 
 
 class Timeout(Exception):
@@ -68,6 +76,9 @@ def build(ctx, term, ty):
             return ctx.symbol(term[1], CTYPE[ty])
         return ctx.symbol(term[1], "boolean" if term[1] in ("b", "c") else ty)
     if k == "num":
+        if term[1].startswith("pow2:"):
+            fi = numpy.finfo(getattr(numpy, ty if ty in ("float16", "float32", "float64") else "float64"))
+            return ctx.constant(POW2[term[1][5:]](fi), x)
         return ctx.constant(NUMS[term[1]], x)
     if k == "numz":
         return ctx.constant(NUMS[term[1]], ctx.symbol("z", CTYPE[ty]))
